@@ -814,6 +814,13 @@ class ValueDate(Value):
 @functools.total_ordering
 class ValueDecimal(Value):
     def __init__(self, value):
+        if type(value) is float:
+            if not math.isfinite(value):
+                raise CklRuntimeError(
+                    ValueString("ERROR"),
+                    "Numeric overflow or undefined result in decimal operation",
+                )
+            value = value + 0.0  # there is one zero: -0.0 + 0.0 is 0.0
         self.value = value
 
     def __hash__(self):
